@@ -137,9 +137,13 @@ def _chunk(seed, lo, hi, extra):
             st.failures.append({"sig": "C11/two-keys-share-a-placeholder", **desc})
         if len(maker.placeholder2tag) != len(maker.tag2placeholder):
             st.failures.append({"sig": "C11/tables-out-of-step", **desc})
+        # every text tag is substituted: a text-tag element that is still in the tree has no element child left, so an
+        # inline element identical in two documents is compared as the same placeholder text
         for dn in done:
-            for n in dn.iter():
-                pass
+            left = [n for n in dn.iter() if n.kind == "e" and n.tag in text and any(k.kind == "e" for k in n.kids)]
+            if left:
+                st.failures.append({"sig": "C11/text-tag-element-keeps-element-children", "element": xt.to_xml(left[0])[:300], **desc})
+                break
         nested = any(n.kind == "e" and n.tag in fmt and any(k.kind == "e" for k in n.kids) for d in docs for n in d.iter()) and bool(text)
         if nested:
             st.nontriv((tuple(desc["documents"]), text, fmt))
